@@ -157,7 +157,8 @@ func init() {
 					rec(m)
 				}
 			}
-			for _, amt := range []string{"000000000000", "00000000000", "0", "0000000000000", "000000000001", "1", "1234567890123", "12345678901x", ""} {
+			for _, amt := range []string{"000000000000", "00000000000", "0", "0000000000000", "000000000001", "1", "1234567890123", "12345678901x", "",
+				"-00001234567", "+00001234567", "-1", "+1", "-00000000000", "+0", "1e5", "0x10", " 1234", "1234 ", "12 34", "1,234", "12.34", "00000000000000000000", "99999999999999999999", "\xef\xbc\x91234"} {
 				for _, st := range []string{"00", "90"} {
 					m := base.Clone()
 					m.setElem("Amount", "Amount", amt)
